@@ -130,6 +130,26 @@ Proof.
   rewrite E. unfold bind, textM, lift, ret. rewrite Htn. reflexivity.
 Qed.
 
+Lemma cur_after p : forall off al dn R ev, p <> [] ->
+  current_offset_of (St al (rev (place off p) ++ dn) R ev) = off + blen (unlex p).
+Proof.
+  induction p as [|t p0 _] using rev_ind; intros off al dn R ev H; [contradiction|].
+  rewrite place_app. cbn [place]. rewrite rev_unit. cbn [app]. unfold current_offset_of. cbn [b_done St].
+  unfold tend. cbn [tstart tstr]. rewrite unlex_app, blen_app.
+  change (unlex [t]) with (snd t ++ []). rewrite app_nil_r. lia.
+Qed.
+
+
+Lemma cur_after' p o1 al dn R ev :
+  current_offset_of (St al dn [] []) = o1 ->
+  current_offset_of (St al (rev (place o1 p) ++ dn) R ev) = o1 + blen (unlex p).
+Proof.
+  intro H. destruct p as [|t p].
+  - cbn [place rev app]. unfold unlex; cbn [map concat blen]. rewrite N.add_0_r. exact H.
+  - apply cur_after. discriminate.
+Qed.
+
+
 (* ---------------------------------------------------------------- the three component parsers,
    assembled from the readings of their parts *)
 Section Assemble.
@@ -423,6 +443,363 @@ Section Body.
   Qed.
 End Body.
 
+(* ---------------------------------------------------------------- modifiers *)
+Definition bn (b : bool) (w : N) : N := if b then w else 0.
+Definition enc (u : tkind -> bool) : N :=
+  bn (u KAt) M_RECIPE + bn (u KAnd) M_REF + bn (u KMinus) M_HIDDEN + bn (u KQuestion) M_OPT + bn (u KPlus) M_NEW.
+
+Lemma enc_ext u v : (forall k, is_modifier_k k = true -> u k = v k) -> enc u = enc v.
+Proof. intro H. unfold enc. rewrite !H by reflexivity. reflexivity. Qed.
+
+Lemma land_enc k u : is_modifier_k k = true -> (N.land (enc u) (kind_bit k) =? kind_bit k) = u k.
+Proof.
+  intro Hk. destruct k; try discriminate; unfold enc, kind_bit; cbn [mod_bit];
+    destruct (u KAt), (u KAnd), (u KMinus), (u KQuestion), (u KPlus); reflexivity.
+Qed.
+
+Lemma lor_enc k u : is_modifier_k k = true -> N.lor (enc u) (kind_bit k) = enc (fun k' => tk_eqb k' k || u k').
+Proof.
+  intro Hk. destruct k; try discriminate; unfold enc, kind_bit; cbn [mod_bit tk_eqb tkind_beq orb];
+    destruct (u KAt), (u KAnd), (u KMinus), (u KQuestion), (u KPlus); reflexivity.
+Qed.
+
+Lemma mod_bit_kind k : is_modifier_k k = true -> mod_bit k = Some (kind_bit k).
+Proof. destruct k; try discriminate; reflexivity. Qed.
+
+Lemma filter_wsb B o : wsb_ok B = true -> filter (fun t => negb (is_ws_block (kind t))) (place o B) = [].
+Proof.
+  revert o. induction B as [|t B IH]; intros o H; [reflexivity|]. cbn [wsb_ok forallb] in H.
+  apply andb_true_iff in H as [H1 H2]. apply andb_true_iff in H1 as [H1 _].
+  cbn [place filter kind]. rewrite H1. cbn [negb]. apply IH. exact H2.
+Qed.
+
+Lemma wsb_noclose B o : wsb_ok B = true -> forallb (fun x => negb (tk_eqb (kind x) KCloseParen)) (place o B) = true.
+Proof.
+  intro H. rewrite (place_forallb (fun k => negb (tk_eqb k KCloseParen))). eapply forallb_impl; [|exact H].
+  intros x Hx. apply andb_true_iff in Hx as [Hx _]. destruct (fst x); try discriminate; reflexivity.
+Qed.
+
+(* the data between the parentheses *)
+Definition inter_inner (i : ispec) : list ptok :=
+  is_b1 i ++ (if is_sec i then (KEq, [61]) :: is_b2 i else []) ++
+  (if is_rel i then (KTilde, [126]) :: is_b3 i else []) ++ (KInt, is_val i) :: is_b4 i.
+
+Lemma print_inter_inner i : print_inter i = (KOpenParen, [40]) :: inter_inner i ++ [(KCloseParen, [41])].
+Proof.
+  unfold print_inter, inter_inner. cbn [app]. f_equal. rewrite <- !app_assoc.
+  destruct (is_sec i), (is_rel i); cbn [app]; rewrite <- ?app_assoc; cbn [app]; reflexivity.
+Qed.
+
+Definition ispec_ok (i : ispec) : bool :=
+  wsb_ok (is_b1 i) && wsb_ok (is_b2 i) && wsb_ok (is_b3 i) && wsb_ok (is_b4 i) && (digits_val (is_val i) <=? i16_max).
+
+Lemma inner_noclose i o : ispec_ok i = true ->
+  forallb (fun x => negb (tk_eqb (kind x) KCloseParen)) (place o (inter_inner i)) = true.
+Proof.
+  unfold ispec_ok. intro H. apply andb_true_iff in H as [H _]. apply andb_true_iff in H as [H H4].
+  apply andb_true_iff in H as [H H3]. apply andb_true_iff in H as [H1 H2].
+  unfold inter_inner. rewrite !place_app, !forallb_app, (wsb_noclose _ _ H1).
+  destruct (is_sec i), (is_rel i); cbn [place forallb kind fst app andb]; rewrite ?place_app, ?forallb_app;
+    cbn [place forallb kind fst app andb tk_eqb tkind_beq negb]; rewrite ?(wsb_noclose _ _ H2), ?(wsb_noclose _ _ H3), ?(wsb_noclose _ _ H4); reflexivity.
+Qed.
+
+Definition erase_t (F : list tok) : list ptok := map (fun t => (kind t, tstr t)) F.
+
+Lemma inner_filter i o : ispec_ok i = true ->
+  erase_t (filter (fun t => negb (is_ws_block (kind t))) (place o (inter_inner i)))
+  = (if is_sec i then [(KEq, [61])] else []) ++ (if is_rel i then [(KTilde, [126])] else []) ++ [(KInt, is_val i)].
+Proof.
+  unfold ispec_ok. intro H. apply andb_true_iff in H as [H _]. apply andb_true_iff in H as [H H4].
+  apply andb_true_iff in H as [H H3]. apply andb_true_iff in H as [H1 H2].
+  unfold inter_inner. rewrite place_app, filter_app, (filter_wsb _ _ H1). cbn [app].
+  destruct (is_sec i), (is_rel i); cbn [app place filter kind fst snd is_ws_block negb];
+    rewrite ?place_app, ?filter_app; cbn [app place filter kind fst snd is_ws_block negb];
+    rewrite ?place_app, ?filter_app, ?(filter_wsb _ _ H2), ?(filter_wsb _ _ H3), ?(filter_wsb _ _ H4); cbn [app place filter kind fst snd is_ws_block negb];
+    rewrite ?(filter_wsb _ _ H2), ?(filter_wsb _ _ H3), ?(filter_wsb _ _ H4); cbn [app];
+    reflexivity.
+Qed.
+
+Lemma firstn_succ_app {A} (l : list A) c r : firstn (S (length l)) (l ++ c :: r) = l ++ [c].
+Proof. induction l as [|x l IH]; [reflexivity|]. cbn [length app]. cbn [firstn]. f_equal. exact IH. Qed.
+
+Lemma parse_inter_print i o REST :
+  ispec_ok i = true ->
+  exists d,
+    (forall s, parse_inter (place o (print_inter i) ++ REST) s = Done ((Some d, REST), s)) /\
+    (im_relative d, im_section d, im_val d) = (is_rel i, is_sec i, digits_val (is_val i)).
+Proof.
+  intro Hok. rewrite print_inter_inner.
+  change (place o ((KOpenParen, [40]) :: inter_inner i ++ [(KCloseParen, [41])]))
+    with ({| kind := KOpenParen; tstr := [40]; tstart := o |} :: place (o + blen [40]) (inter_inner i ++ [(KCloseParen, [41])])).
+  rewrite place_app. cbn [place fst snd].
+  set (OP := {| kind := KOpenParen; tstr := [40]; tstart := o |}).
+  set (IN := place (o + blen [40]) (inter_inner i)).
+  set (CP := {| kind := KCloseParen; tstr := [41]; tstart := _ |}).
+  cbn [app]. rewrite <- app_assoc. cbn [app]. unfold parse_inter. cbn [kind OP tk_eqb tkind_beq negb].
+  assert (Hpos : position (fun k => tk_eqb k KCloseParen) (OP :: IN ++ CP :: REST) = Some (S (length IN))).
+  { cbn [position kind OP tk_eqb tkind_beq].
+    rewrite (position_split (fun k => tk_eqb k KCloseParen) IN CP REST (inner_noclose i _ Hok) eq_refl). reflexivity. }
+  rewrite Hpos.
+  assert (Hsl : firstn (S (S (length IN))) (OP :: IN ++ CP :: REST) = OP :: IN ++ [CP]).
+  { change (firstn (S (S (length IN))) (OP :: IN ++ CP :: REST)) with (OP :: firstn (S (length IN)) (IN ++ CP :: REST)).
+    rewrite firstn_succ_app. reflexivity. }
+  assert (Hsk : skipn (S (S (length IN))) (OP :: IN ++ CP :: REST) = REST).
+  { cbn [skipn]. apply skipn_length_app. }
+  rewrite Hsl, Hsk. cbn [tl]. replace (S (length IN) - 1)%nat with (length IN) by lia. rewrite firstn_length_app.
+  pose proof (inner_filter i (o + blen [40]) Hok) as Hf. fold IN in Hf.
+  assert (Hv : digits_val (is_val i) <=? i16_max = true).
+  { unfold ispec_ok in Hok. apply andb_true_iff in Hok as [_ H]. exact H. }
+  unfold erase_t in Hf.
+  destruct (is_sec i), (is_rel i); cbn [app] in Hf;
+    destruct (filter (fun t => negb (is_ws_block (kind t))) IN) as [|a [|b [|c [|d F]]]]; try discriminate Hf;
+    cbn [map] in Hf.
+  - injection Hf as Hk1 Hs1 Hk2 Hs2 Hk3 Hs3. rewrite Hk1, Hk2, Hk3. cbn [tk_eqb tkind_beq andb orb].
+    rewrite Hs3, Hv. eexists. split; [intro s; reflexivity|reflexivity].
+  - injection Hf as Hk1 Hs1 Hk2 Hs2. rewrite Hk1, Hk2. cbn [tk_eqb tkind_beq andb orb].
+    rewrite Hs2, Hv. eexists. split; [intro s; reflexivity|reflexivity].
+  - injection Hf as Hk1 Hs1 Hk2 Hs2. rewrite Hk1, Hk2. cbn [tk_eqb tkind_beq andb orb].
+    rewrite Hs2, Hv. eexists. split; [intro s; reflexivity|reflexivity].
+  - injection Hf as Hk1 Hs1. rewrite Hk1. cbn [tk_eqb tkind_beq andb orb].
+    rewrite Hs1, Hv. eexists. split; [intro s; reflexivity|reflexivity].
+Qed.
+
+Section Mods.
+  Variable cfg : pcfg.
+
+  Definition mitem_ok (m : mitem) : bool :=
+    match m with
+    | MC k => is_modifier_k k
+    | MRef i => has cfg X_INTERMEDIATE_PREPARATIONS && ispec_ok i
+    end.
+
+  Definition hdk (X : list tok) : tkind := match X with t :: _ => kind t | [] => KEof end.
+
+  Lemma mods_head_not_paren r o X :
+    forallb mitem_ok r = true -> tk_eqb (hdk X) KOpenParen = false ->
+    tk_eqb (hdk (place o (print_mods r) ++ X)) KOpenParen = false.
+  Proof.
+    intros Hr HX. destruct r as [|m r]; [exact HX|]. cbn [forallb] in Hr. apply andb_true_iff in Hr as [Hm _].
+    destruct m as [k|i]; cbn [print_mods map concat print_mitem app place hdk kind fst].
+    - cbn [mitem_ok] in Hm. destruct k; try discriminate; reflexivity.
+    - reflexivity.
+  Qed.
+
+  Lemma print_mods_cons m r : print_mods (m :: r) = print_mitem m ++ print_mods r.
+  Proof. reflexivity. Qed.
+
+  Lemma modifiers_loop_print ms : forall fuel acc o al dn ev X,
+    forallb mitem_ok ms = true -> (length ms < fuel)%nat ->
+    is_modifier_kind (hdk X) = false -> tk_eqb (hdk X) KOpenParen = false ->
+    modifiers_loop cfg fuel acc (St al dn (place o (print_mods ms) ++ X) ev)
+    = Done (acc ++ place o (print_mods ms), St al (rev (place o (print_mods ms)) ++ dn) X ev).
+  Proof.
+    induction ms as [|m r IH]; intros fuel acc o al dn ev X Hok Hf HX1 HX2.
+    - destruct fuel; [cbn in Hf; lia|]. cbn [print_mods map concat place app rev modifiers_loop].
+      unfold bind, peek, peek_of. cbn [b_rest St]. fold (hdk X). rewrite app_nil_r.
+      destruct (hdk X); try discriminate HX1; reflexivity.
+    - destruct fuel as [|f]; [cbn in Hf; lia|]. cbn [length] in Hf.
+      cbn [forallb] in Hok. apply andb_true_iff in Hok as [Hm Hr].
+      rewrite print_mods_cons, place_app, <- app_assoc.
+      set (o' := o + blen (unlex (print_mitem m))).
+      pose proof (mods_head_not_paren r o' X Hr HX2) as Hnp.
+      destruct m as [k|i]; cbn [print_mitem] in *.
+      + (* a modifier character *)
+        cbn [mitem_ok] in Hm. cbn [place fst snd app].
+        set (T := {| kind := k; tstr := [mod_char k]; tstart := o |}).
+        cbn [modifiers_loop]. unfold bind at 1, peek, peek_of. cbn [b_rest St kind T].
+        assert (Hstep : forall acc', bind bump_any (fun t => modifiers_loop cfg f (acc' t))
+                          (St al dn (T :: place o' (print_mods r) ++ X) ev)
+                        = modifiers_loop cfg f (acc' T) (St al (T :: dn) (place o' (print_mods r) ++ X) ev)).
+        { intro acc'. unfold bind, bump_any, bind, next_token. cbn [b_rest b_all b_done b_evs St]. reflexivity. }
+        assert (Hfin : modifiers_loop cfg f (acc ++ [T]) (St al (T :: dn) (place o' (print_mods r) ++ X) ev)
+                       = Done (acc ++ T :: place o' (print_mods r), St al (rev (T :: place o' (print_mods r)) ++ dn) X ev)).
+        { rewrite (IH f (acc ++ [T]) o' al (T :: dn) ev X Hr ltac:(lia) HX1 HX2).
+          rewrite <- app_assoc. cbn [app rev]. rewrite <- ?app_assoc. reflexivity. }
+        destruct k; try discriminate Hm.
+        * rewrite (Hstep (fun t => acc ++ [t])). exact Hfin.
+        * rewrite (Hstep (fun t => acc ++ [t])). exact Hfin.
+        * rewrite (Hstep (fun t => acc ++ [t])). exact Hfin.
+        * rewrite (Hstep (fun t => acc ++ [t])). exact Hfin.
+        * (* `&` without data *)
+          unfold bind at 1, bump_any, bind at 1, next_token. cbn [b_rest b_all b_done b_evs St]. unfold ret at 1.
+          destruct (has cfg X_INTERMEDIATE_PREPARATIONS); [|exact Hfin].
+          unfold bind at 1, with_recover, obindM at 1, bind at 1.
+          rewrite consume_miss by (unfold peek_of; cbn [b_rest St]; exact Hnp).
+          cbn [b_all b_done b_rest b_evs]. exact Hfin.
+      + (* `&( .. )` *)
+        cbn [mitem_ok] in Hm. apply andb_true_iff in Hm as [Hint Hio].
+        change (place o ((KAnd, [38]) :: print_inter i)) with
+          ({| kind := KAnd; tstr := [38]; tstart := o |} :: place (o + blen [38]) (print_inter i)).
+        set (T := {| kind := KAnd; tstr := [38]; tstart := o |}).
+        rewrite print_inter_inner.
+        change (place (o + blen [38]) ((KOpenParen, [40]) :: inter_inner i ++ [(KCloseParen, [41])]))
+          with ({| kind := KOpenParen; tstr := [40]; tstart := o + blen [38] |}
+                  :: place (o + blen [38] + blen [40]) (inter_inner i ++ [(KCloseParen, [41])])).
+        rewrite place_app. cbn [place fst snd].
+        set (OP := {| kind := KOpenParen; tstr := [40]; tstart := o + blen [38] |}).
+        set (IN := place (o + blen [38] + blen [40]) (inter_inner i)).
+        set (CP := {| kind := KCloseParen; tstr := [41]; tstart := _ |}).
+        cbn [app]. rewrite <- app_assoc. cbn [app].
+        cbn [modifiers_loop]. unfold bind at 1, peek, peek_of. cbn [b_rest St kind T].
+        unfold bind at 1, bump_any, bind at 1, next_token. cbn [b_rest b_all b_done b_evs St]. unfold ret at 1.
+        rewrite Hint. unfold bind at 1, with_recover, obindM at 1, bind at 1.
+        fold (St al (T :: dn) (OP :: IN ++ CP :: place o' (print_mods r) ++ X) ev).
+        rewrite (consume_hit KOpenParen OP _ al (T :: dn) ev eq_refl).
+        unfold obindM at 1, bind at 1.
+        rewrite (until_stop (fun k0 => tk_eqb k0 KCloseParen) IN CP _ al (OP :: T :: dn) ev (inner_noclose i _ Hio) eq_refl).
+        unfold bind at 1, bump, bind at 1, bump_any, bind at 1, next_token. cbn [b_rest b_all b_done b_evs St]. unfold ret at 1 2 3.
+        cbn [kind CP tk_eqb tkind_beq].
+        fold (St al (CP :: rev IN ++ OP :: T :: dn) (place o' (print_mods r) ++ X) ev).
+        rewrite (IH f (acc ++ T :: OP :: IN ++ [CP]) o' al _ ev X Hr ltac:(lia) HX1 HX2).
+        do 2 f_equal.
+        * rewrite <- ?app_assoc. cbn [app]. rewrite <- ?app_assoc. reflexivity.
+        * cbn [rev]. rewrite ?rev_app_distr. cbn [rev app]. rewrite <- ?app_assoc. cbn [app]. rewrite <- ?app_assoc. reflexivity.
+  Qed.
+End Mods.
+
+Section Mods2.
+  Variable cfg : pcfg.
+
+  Definition iproj (d : interdata) : bool * bool * N := (im_relative d, im_section d, im_val d).
+
+  Lemma parse_inter_nohit ts s : tk_eqb (hdk ts) KOpenParen = false -> parse_inter ts s = Done ((None, ts), s).
+  Proof. intro H. unfold parse_inter. destruct ts as [|t0 r]; [reflexivity|]. cbn [hdk] in H. rewrite H. reflexivity. Qed.
+
+  Lemma mods_inter_none r : existsb (tk_eqb KAnd) (map mitem_kind r) = false -> mods_inter r = None.
+  Proof.
+    induction r as [|m r IH]; [reflexivity|]. cbn [map existsb mods_inter]. intro H. apply orb_false_iff in H as [H1 H2].
+    destruct m as [k|i]; [exact (IH H2)|discriminate].
+  Qed.
+
+  Lemma tk_eqb_sym a b : tk_eqb a b = tk_eqb b a.
+  Proof. destruct a, b; reflexivity. Qed.
+
+  Lemma pml_print ms : forall fuel o msp u inter,
+    forallb (mitem_ok cfg) ms = true -> nodup_k (map mitem_kind ms) = true ->
+    (forall m, In m ms -> u (mitem_kind m) = false) ->
+    (existsb (tk_eqb KAnd) (map mitem_kind ms) = true -> inter = None) ->
+    (length (place o (print_mods ms)) < fuel)%nat ->
+    exists inter',
+      (forall s, parse_mods_loop cfg fuel (place o (print_mods ms)) msp (enc u) inter s
+       = Done ((enc (fun k => existsb (tk_eqb k) (map mitem_kind ms) || u k), inter'), s)) /\
+      option_map iproj inter' = match mods_inter ms with Some x => Some x | None => option_map iproj inter end.
+  Proof.
+    induction ms as [|m r IH]; intros fuel o msp u inter Hok Hnd Hu Hi Hf.
+    - destruct fuel; [cbn in Hf; lia|]. exists inter. split; [intro s; reflexivity|reflexivity].
+    - destruct fuel as [|f]; [cbn in Hf; lia|].
+      cbn [forallb] in Hok. apply andb_true_iff in Hok as [Hm Hr].
+      cbn [map nodup_k] in Hnd. apply andb_true_iff in Hnd as [Hnin Hnd]. apply negb_true in Hnin.
+      rewrite print_mods_cons, place_app in *. rewrite app_length in Hf.
+      set (o' := o + blen (unlex (print_mitem m))) in *.
+      assert (Hkm : is_modifier_k (mitem_kind m) = true).
+      { destruct m as [k|i]; [exact Hm|reflexivity]. }
+      set (u' := fun k' => tk_eqb k' (mitem_kind m) || u k').
+      assert (Hu' : forall m', In m' r -> u' (mitem_kind m') = false).
+      { intros m' Hin. unfold u'. rewrite (Hu m' (or_intror Hin)), orb_false_r.
+        destruct (tk_eqb (mitem_kind m') (mitem_kind m)) eqn:E; [|reflexivity].
+        apply tk_eqb_eq in E. exfalso.
+        assert (existsb (tk_eqb (mitem_kind m)) (map mitem_kind r) = true); [|congruence].
+        apply existsb_exists. exists (mitem_kind m'). split; [apply in_map; exact Hin|]. rewrite E. apply tk_eqb_refl. }
+      assert (Henc : forall ks, enc (fun k => existsb (tk_eqb k) ks || u' k)
+                              = enc (fun k => existsb (tk_eqb k) (mitem_kind m :: ks) || u k)).
+      { intro ks. apply enc_ext. intros k _. unfold u'. cbn [existsb].
+        destruct (tk_eqb k (mitem_kind m)), (existsb (tk_eqb k) ks), (u k); reflexivity. }
+      assert (Hdup : (N.land (enc u) (kind_bit (mitem_kind m)) =? kind_bit (mitem_kind m)) = false).
+      { rewrite (land_enc _ u Hkm). apply Hu. left; reflexivity. }
+      destruct m as [k|i]; cbn [print_mitem mitem_kind] in *.
+      + cbn [place fst snd app]. cbn [parse_mods_loop kind]. rewrite (mod_bit_kind k Hkm).
+        assert (Hrest : exists inter1,
+                   (forall s, (if tk_eqb k KAnd && has cfg X_INTERMEDIATE_PREPARATIONS
+                    then parse_inter (place o' (print_mods r)) else ret (inter, place o' (print_mods r))) s
+                   = Done ((inter1, place o' (print_mods r)), s)) /\
+                   (existsb (tk_eqb KAnd) (map mitem_kind r) = true -> inter1 = None) /\
+                   option_map iproj inter1 = option_map iproj inter).
+        { destruct (tk_eqb k KAnd && has cfg X_INTERMEDIATE_PREPARATIONS) eqn:E.
+          - apply andb_true_iff in E as [E _]. apply tk_eqb_eq in E. subst k.
+            exists None. split; [|split; [auto|]].
+            + intro s. apply parse_inter_nohit. replace (place o' (print_mods r)) with (place o' (print_mods r) ++ []) by apply app_nil_r.
+              apply (mods_head_not_paren cfg r o' [] Hr). reflexivity.
+            + rewrite (Hi ltac:(cbn [map existsb tk_eqb tkind_beq orb]; reflexivity)). reflexivity.
+          - exists inter. split; [intro s; reflexivity|split; [|reflexivity]].
+            intro H. apply Hi. cbn [map existsb]. rewrite H. apply orb_true_r. }
+        destruct Hrest as (inter1 & Hpi & Hi1 & Hp1).
+        destruct (IH f o' msp u' inter1 Hr Hnd Hu' Hi1) as (inter' & Hl & Hp).
+        { apply (proj2 (Nat.succ_lt_mono _ _)). exact Hf. }
+        exists inter'. split; [|cbn [mods_inter]; rewrite Hp, Hp1; reflexivity].
+        intro s. unfold bind at 1. rewrite Hpi. rewrite Hdup. rewrite (lor_enc k u Hkm). fold u'. rewrite Hl, Henc. reflexivity.
+      + cbn [mitem_ok] in Hm. apply andb_true_iff in Hm as [Hint Hio].
+        change (place o ((KAnd, [38]) :: print_inter i)) with
+          ({| kind := KAnd; tstr := [38]; tstart := o |} :: place (o + blen [38]) (print_inter i)).
+        cbn [app parse_mods_loop kind mod_bit tk_eqb tkind_beq andb]. rewrite Hint.
+        destruct (parse_inter_print i (o + blen [38]) (place o' (print_mods r)) Hio) as (d & Hpi & Hd).
+        destruct (IH f o' msp u' (Some d) Hr Hnd Hu') as (inter' & Hl & Hp).
+        { intro H. congruence. }
+        { assert (Hx : forall a b c, (S a + b < S c)%nat -> (b < c)%nat) by (intros; lia). cbn [length] in Hf. eapply Hx. exact Hf. }
+        exists inter'. split.
+        * intro s. unfold bind at 1. rewrite Hpi.
+          change M_REF with (kind_bit KAnd). rewrite Hdup. rewrite (lor_enc KAnd u eq_refl). fold u'. rewrite Hl, Henc. reflexivity.
+        * cbn [mods_inter]. rewrite Hp, (mods_inter_none r Hnin). cbn [option_map]. unfold iproj. rewrite Hd. reflexivity.
+  Qed.
+End Mods2.
+
+Section Mods3.
+  Variable cfg : pcfg.
+
+  Lemma fold_bits_enc ms : forall u,
+    forallb (mitem_ok cfg) ms = true ->
+    fold_left (fun acc m => N.lor acc (kind_bit (mitem_kind m))) ms (enc u)
+    = enc (fun k => existsb (tk_eqb k) (map mitem_kind ms) || u k).
+  Proof.
+    induction ms as [|m r IH]; intros u H; [reflexivity|]. cbn [forallb] in H. apply andb_true_iff in H as [Hm Hr].
+    assert (Hkm : is_modifier_k (mitem_kind m) = true) by (destruct m; [exact Hm|reflexivity]).
+    cbn [fold_left map]. rewrite (lor_enc _ u Hkm), (IH _ Hr). apply enc_ext. intros k _. cbn [existsb].
+    destruct (tk_eqb k (mitem_kind m)), (existsb (tk_eqb k) (map mitem_kind r)), (u k); reflexivity.
+  Qed.
+
+  Lemma mods_bits_enc ms : forallb (mitem_ok cfg) ms = true ->
+    mods_bits ms = enc (fun k => existsb (tk_eqb k) (map mitem_kind ms) || false).
+  Proof. intro H. unfold mods_bits. change 0 with (enc (fun _ => false)). apply fold_bits_enc. exact H. Qed.
+
+  Lemma len_mods ms : (length ms <= length (print_mods ms))%nat.
+  Proof.
+    induction ms as [|m r IH]; [apply le_n|]. rewrite print_mods_cons, app_length. cbn [length].
+    destruct m; cbn [print_mitem length]; lia.
+  Qed.
+
+  Lemma modifiers_print ms o al dn ev X :
+    (is_nil ms || has cfg X_COMPONENT_MODIFIERS = true) -> forallb (mitem_ok cfg) ms = true ->
+    is_modifier_kind (hdk X) = false -> tk_eqb (hdk X) KOpenParen = false ->
+    modifiers cfg (St al dn (place o (print_mods ms) ++ X) ev)
+    = Done (place o (print_mods ms), St al (rev (place o (print_mods ms)) ++ dn) X ev).
+  Proof.
+    intros Hm Hok HX1 HX2. unfold modifiers. destruct (has cfg X_COMPONENT_MODIFIERS) eqn:E; cbn [negb].
+    - unfold bind, rest. cbn [b_rest St].
+      rewrite (modifiers_loop_print cfg ms _ [] o al dn ev X Hok); auto.
+      rewrite app_length, place_length. pose proof (len_mods ms). lia.
+    - rewrite orb_false_r in Hm. destruct ms; [|discriminate]. reflexivity.
+  Qed.
+
+  Lemma parse_modifiers_print ms o mpos :
+    forallb (mitem_ok cfg) ms = true -> nodup_k (map mitem_kind ms) = true ->
+    exists msp inter,
+      (forall s, parse_modifiers cfg (place o (print_mods ms)) mpos s = Done ((mods_bits ms, msp, inter), s)) /\
+      option_map iproj inter = mods_inter ms.
+  Proof.
+    intros Hok Hnd. unfold parse_modifiers.
+    destruct (place o (print_mods ms)) as [|t0 T] eqn:E.
+    - assert (ms = []).
+      { destruct ms as [|m r]; [reflexivity|]. rewrite print_mods_cons, place_app in E.
+        destruct m; cbn [print_mitem place app] in E; discriminate. }
+      subst ms. exists (mpos, mpos), None. split; [intro s; reflexivity|reflexivity].
+    - rewrite <- E.
+      destruct (pml_print cfg ms (S (length (place o (print_mods ms)))) o (tokens_span (place o (print_mods ms)))
+                  (fun _ => false) None Hok Hnd) as (inter' & Hl & Hp); auto.
+      exists (tokens_span (place o (print_mods ms))), inter'. split.
+      + intro s. unfold bind. change 0 with (enc (fun _ => false)). rewrite Hl. rewrite (mods_bits_enc ms Hok). reflexivity.
+      + rewrite Hp. destruct (mods_inter ms); reflexivity.
+  Qed.
+End Mods3.
+
 (* ---------------------------------------------------------------- C01, components *)
 Definition comp_fn (cfg : pcfg) (k : ckind) : M (option pevent) :=
   match k with
@@ -432,14 +809,15 @@ Definition comp_fn (cfg : pcfg) (k : ckind) : M (option pevent) :=
   end.
 
 Lemma comp_layout c off :
-  let o1 := off + blen (snd (marker_p (cs_kind c))) in
+  let o0 := off + blen (snd (marker_p (cs_kind c))) in
+  let o1 := o0 + blen (unlex (print_mods (cs_mods c))) in
   let o2 := o1 + blen (unlex (print_cname c)) in
   exists o3,
     place off (print_comp c)
     = {| kind := fst (marker_p (cs_kind c)); tstr := snd (marker_p (cs_kind c)); tstart := off |}
-        :: place o1 (print_cname c) ++ place o2 (print_cbody (cs_body c)) ++ place o3 (print_cnote c).
+        :: place o0 (print_mods (cs_mods c)) ++ place o1 (print_cname c) ++ place o2 (print_cbody (cs_body c)) ++ place o3 (print_cnote c).
 Proof.
-  intros o1 o2. unfold print_comp. cbn [place]. fold o1. rewrite place_app. fold o2. rewrite place_app.
+  intros o0 o1 o2. unfold print_comp. cbn [place]. fold o0. rewrite place_app. fold o1. rewrite place_app. fold o2. rewrite place_app.
   eexists. reflexivity.
 Qed.
 
@@ -491,13 +869,23 @@ Section CompPrint.
     intros W F. unfold comp_wf in W.
     apply andb_true_iff in W as [W Wnote]. apply andb_true_iff in W as [W Wbody].
     apply andb_true_iff in W as [W Walias]. apply andb_true_iff in W as [W Wnb].
-    apply andb_true_iff in W as [W Wmod]. apply andb_true_iff in W as [Wstrict Wname].
+    apply andb_true_iff in W as [W Wnop]. apply andb_true_iff in W as [W Wmod].
+    apply andb_true_iff in W as [W Wmi]. apply andb_true_iff in W as [W Wnd]. apply andb_true_iff in W as [W Wmx].
+    apply andb_true_iff in W as [Wstrict Wname].
     assert (Hstrict : p_strict_escape cfg = false) by (apply negb_true; exact Wstrict).
-    apply negb_true in Wmod. unfold comp_follow in F. apply andb_true_iff in F as [Fnote Fbody].
+    apply negb_true in Wmod, Wnop.
+    assert (Hmok : forallb (mitem_ok cfg) (cs_mods c) = true).
+    { eapply forallb_impl; [|exact Wmi]. intros m Hm. destruct m as [k0|i]; cbn [mitem_ok].
+      - apply andb_true_iff in Hm as [Hm _]. exact Hm.
+      - apply andb_true_iff in Hm as [Hm _]. apply andb_true_iff in Hm as [Hm H5]. apply andb_true_iff in Hm as [Hm H4].
+        apply andb_true_iff in Hm as [Hm H3]. apply andb_true_iff in Hm as [Hm H2]. apply andb_true_iff in Hm as [Hi H1].
+        unfold ispec_ok. rewrite Hi, H1, H2, H3, H4, H5. reflexivity. } unfold comp_follow in F. apply andb_true_iff in F as [Fnote Fbody].
     rewrite place_app. destruct (comp_layout c off) as (o3 & Elay). cbv zeta in Elay.
     set (M := {| kind := fst (marker_p (cs_kind c)); tstr := snd (marker_p (cs_kind c)); tstart := off |}) in *.
-    set (o1 := off + blen (snd (marker_p (cs_kind c)))) in *.
+    set (o0 := off + blen (snd (marker_p (cs_kind c)))) in *.
+    set (o1 := o0 + blen (unlex (print_mods (cs_mods c)))) in *.
     set (o2 := o1 + blen (unlex (print_cname c))) in *.
+    set (MD := place o0 (print_mods (cs_mods c))) in *.
     set (KT := place (off + blen (unlex (print_comp c))) k).
     set (NM := place o1 (print_cname c)) in *. set (BD := place o2 (print_cbody (cs_body c))) in *.
     set (NT := place o3 (print_cnote c)) in *.
@@ -520,7 +908,7 @@ Section CompPrint.
     { destruct (cs_note c).
       - apply andb_true_iff in Wnote as [Wn _]. exact Wn.
       - unfold KT. rewrite place_head_kind. apply negb_true. exact Fnote. }
-    destruct (note_reads cfg Hstrict c KT o3 al (rev BD ++ rev NM ++ M :: dn) ev Hnote1) as (nt & Hnt & Hntp).
+    destruct (note_reads cfg Hstrict c KT o3 al (rev BD ++ rev NM ++ rev MD ++ M :: dn) ev Hnote1) as (nt & Hnt & Hntp).
     fold NT in Hnt.
     (* body *)
     assert (Hbd : match cs_body c with
@@ -549,35 +937,40 @@ Section CompPrint.
           * pose proof (place_head_kind k (off + blen (unlex (print_comp c)))) as Hh.
             destruct (place (off + blen (unlex (print_comp c))) k); [exact I|]. rewrite Hh. apply negb_true. exact Fb1.
           * rewrite first_mo_place. intro E. rewrite E in Fb2. discriminate. }
-    destruct (body_reads cfg c (NT ++ KT) o1 al (M :: dn) ev Wname Hal1 Hbd) as (bd & Hbody & Hbn & Hbq).
+    destruct (body_reads cfg c (NT ++ KT) o1 al (rev MD ++ M :: dn) ev Wname Hal1 Hbd) as (bd & Hbody & Hbn & Hbq).
     cbv zeta in Hbody. fold o2 NM BD in Hbody, Hbn.
     (* name / alias *)
     destruct (alias_reads cfg Hstrict c o1 Wname Hal2) as (tn & ta & Hpa & Htn & Hten & Hta).
     fold NM in Hpa. rewrite <- Hbn in Hpa.
-    (* modifiers: none *)
+    (* modifiers *)
     assert (Hne : print_cname c ++ print_cbody (cs_body c) <> []).
     { destruct (cs_body c); cbn [print_cbody]; try (destruct (print_cname c); discriminate).
       rewrite app_nil_r. unfold print_cname. destruct Hbd as (_ & Hne & _). destruct (cs_name c); [contradiction|discriminate]. }
-    assert (Hmods : modifiers cfg (St al (M :: dn) (NM ++ BD ++ NT ++ KT) ev) = Done ([], St al (M :: dn) (NM ++ BD ++ NT ++ KT) ev)).
-    { apply modifiers_untriggered. unfold peek_of. cbn [b_rest St]. rewrite is_modifier_k_eq.
-      replace (match NM ++ BD ++ NT ++ KT with t :: _ => kind t | [] => KEof end)
-        with (head_kind (print_cname c ++ print_cbody (cs_body c))); [exact Wmod|].
-      unfold NM, BD. rewrite app_assoc, <- place_app.
+    assert (Hhd : hdk (NM ++ BD ++ NT ++ KT) = head_kind (print_cname c ++ print_cbody (cs_body c))).
+    { unfold NM, BD. rewrite app_assoc, <- place_app. unfold hdk.
       destruct (print_cname c ++ print_cbody (cs_body c)); [contradiction|reflexivity]. }
-    assert (Hcur : current_offset_of (St al (M :: dn) (NM ++ BD ++ NT ++ KT) ev) = o1) by reflexivity.
+    assert (Hmods : modifiers cfg (St al (M :: dn) (MD ++ NM ++ BD ++ NT ++ KT) ev)
+                    = Done (MD, St al (rev MD ++ M :: dn) (NM ++ BD ++ NT ++ KT) ev)).
+    { apply modifiers_print; auto.
+      - rewrite Hhd, is_modifier_k_eq. exact Wmod.
+      - rewrite Hhd. exact Wnop. }
+    assert (Hcur0 : current_offset_of (St al (M :: dn) (MD ++ NM ++ BD ++ NT ++ KT) ev) = o0) by reflexivity.
+    assert (Hcur : current_offset_of (St al (rev MD ++ M :: dn) (NM ++ BD ++ NT ++ KT) ev) = o1).
+    { unfold MD, o1. apply cur_after'. reflexivity. }
+    destruct (parse_modifiers_print cfg (cs_mods c) o0 o0 Hmok Wnd) as (msp & minter & Hpm & Hpmi). fold MD in Hpm.
     (* quantity *)
     assert (Hq : exists qres sepo,
-               qty_part cfg bd (St al (rev NT ++ rev BD ++ rev NM ++ M :: dn) KT ev) qres sepo /\
+               qty_part cfg bd (St al (rev NT ++ rev BD ++ rev NM ++ rev MD ++ M :: dn) KT ev) qres sepo /\
                option_map qproj qres = denote_cqty (cs_body c)).
     { unfold qty_part. rewrite Hbq. destruct (cs_body c) as [q tp | inner |].
       - destruct Hbd as [Wq _].
-        destruct (parse_quantity_print cfg q tp (o2 + blen [123]) (St al (rev NT ++ rev BD ++ rev NM ++ M :: dn) KT ev) Wq)
+        destruct (parse_quantity_print cfg q tp (o2 + blen [123]) (St al (rev NT ++ rev BD ++ rev NM ++ rev MD ++ M :: dn) KT ev) Wq)
           as (q' & sep & Hp & Hpj).
         exists (Some q'), (Some sep). split; [exists q', sep; auto|]. cbn [option_map denote_cqty]. rewrite Hpj. reflexivity.
       - exists None, None. split; [split; reflexivity|reflexivity].
       - exists None, None. split; [split; reflexivity|reflexivity]. }
     destruct Hq as (qres & sepo & Hqp & Hqd).
-    assert (Hdn : rev NT ++ rev BD ++ rev NM ++ M :: dn = rev (NM ++ BD ++ NT) ++ [M] ++ dn).
+    assert (Hdn : rev NT ++ rev BD ++ rev NM ++ rev MD ++ M :: dn = rev (MD ++ NM ++ BD ++ NT) ++ [M] ++ dn).
     { rewrite !rev_app_distr, <- !app_assoc. reflexivity. }
     rewrite <- Hdn.
     unfold comp_fn. unfold denote_comp.
@@ -585,14 +978,15 @@ Section CompPrint.
     - (* ingredient *)
       assert (HkM : kind M = KAt) by reflexivity.
       assert (Hne' : is_text_empty tn = false) by (rewrite Hten; destruct (cs_body c); apply negb_true; exact Wnb).
-      destruct (ingredient_assemble cfg M (NM ++ BD ++ NT ++ KT) al dn ev [] (M :: dn) (NM ++ BD ++ NT ++ KT) bd
-                  (rev BD ++ rev NM ++ M :: dn) (NT ++ KT) nt (rev NT ++ rev BD ++ rev NM ++ M :: dn) KT tn ta 0 (o1, o1) None qres sepo
-                  HkM Hmods Hbody Hnt Hpa Hne' (fun s => eq_refl) Hqp)
+      destruct (ingredient_assemble cfg M (MD ++ NM ++ BD ++ NT ++ KT) al dn ev MD (rev MD ++ M :: dn) (NM ++ BD ++ NT ++ KT) bd
+                  (rev BD ++ rev NM ++ rev MD ++ M :: dn) (NT ++ KT) nt (rev NT ++ rev BD ++ rev NM ++ rev MD ++ M :: dn) KT tn ta
+                  (mods_bits (cs_mods c)) msp minter qres sepo
+                  HkM Hmods Hbody Hnt (ltac:(rewrite Hcur; exact Hpa)) Hne' Hpm Hqp)
         as (sp & Hi).
-      exists (EvIngredient {| i_mods := 0; i_mods_span := (o1, o1); i_inter := None; i_name := tn; i_alias := ta;
-                             i_qty := qres; i_note := nt; i_span := sp |}).
-      split; [apply with_recover_some; exact Hi|].
-      cbn [ev_proj i_mods i_inter i_name i_alias i_qty i_note option_map]. rewrite Htn, Hta, Hqd, Hntp. reflexivity.
+      eexists. split; [apply with_recover_some; exact Hi|].
+      cbn [ev_proj i_mods i_inter i_name i_alias i_qty i_note]. rewrite Htn, Hta, Hqd, Hntp.
+      change (option_map (fun d => (im_relative d, im_section d, im_val d)) minter) with (option_map iproj minter).
+      rewrite Hpmi. reflexivity.
     - (* cookware *)
       assert (Hun : match qres with Some q => q_unit q = None | None => True end).
       { destruct qres as [q'|]; [|exact I]. destruct (cs_body c) as [q tp | |]; try discriminate.
@@ -601,9 +995,26 @@ Section CompPrint.
         pose proof (f_equal (fun o => match o with Some x => x | None => qproj q' end) Hqd) as Hq'; cbv beta iota in Hq'. apply (qproj_unit q' q Hq'). exact Eu. }
       assert (HkM : kind M = KHash) by reflexivity.
       assert (Hne' : is_text_empty tn = false) by (rewrite Hten; destruct (cs_body c); apply negb_true; exact Wnb).
-      destruct (cookware_assemble cfg M (NM ++ BD ++ NT ++ KT) al dn ev [] (M :: dn) (NM ++ BD ++ NT ++ KT) bd
-                  (rev BD ++ rev NM ++ M :: dn) (NT ++ KT) nt (rev NT ++ rev BD ++ rev NM ++ M :: dn) KT tn ta 0 (o1, o1) qres sepo
-                  HkM Hmods Hbody Hnt Hpa Hne' (fun s => eq_refl) eq_refl Hqp Hun)
+      assert (Hcwm : minter = None /\ (N.land (mods_bits (cs_mods c)) M_RECIPE =? M_RECIPE) = false).
+      { assert (Hcm : forallb (fun m => match m with MC k0 => negb (tk_eqb k0 KAt) | MRef _ => false end) (cs_mods c) = true).
+        { eapply forallb_impl; [|exact Wmi]. intros m Hm. destruct m as [k0|i].
+          - apply andb_true_iff in Hm as [_ Hm]. destruct k0; try reflexivity. discriminate.
+          - apply andb_true_iff in Hm as [_ Hm]. discriminate. }
+        split.
+        - assert (Hmi : mods_inter (cs_mods c) = None).
+          { clear - Hcm. induction (cs_mods c) as [|m r IH]; [reflexivity|]. cbn [forallb] in Hcm.
+            apply andb_true_iff in Hcm as [H1 H2]. destruct m; [exact (IH H2)|discriminate]. }
+          rewrite Hmi in Hpmi. destruct minter; [discriminate|reflexivity].
+        - rewrite (mods_bits_enc cfg _ Hmok). change M_RECIPE with (kind_bit KAt). rewrite (land_enc KAt _ eq_refl).
+          rewrite orb_false_r.
+          clear - Hcm. induction (cs_mods c) as [|m r IH]; [reflexivity|]. cbn [forallb map existsb] in *.
+          apply andb_true_iff in Hcm as [H1 H2]. rewrite (IH H2), orb_false_r.
+          destruct m as [k0|]; [|discriminate]. cbn [mitem_kind]. destruct k0; try reflexivity. discriminate. }
+      destruct Hcwm as [Hmn Hrec]. subst minter.
+      destruct (cookware_assemble cfg M (MD ++ NM ++ BD ++ NT ++ KT) al dn ev MD (rev MD ++ M :: dn) (NM ++ BD ++ NT ++ KT) bd
+                  (rev BD ++ rev NM ++ rev MD ++ M :: dn) (NT ++ KT) nt (rev NT ++ rev BD ++ rev NM ++ rev MD ++ M :: dn) KT tn ta
+                  (mods_bits (cs_mods c)) msp qres sepo
+                  HkM Hmods Hbody Hnt (ltac:(rewrite Hcur; exact Hpa)) Hne' Hpm Hrec Hqp Hun)
         as (sp & Hi).
       eexists. split; [apply with_recover_some; exact Hi|].
       cbn [ev_proj Parser.c_mods Parser.c_name Parser.c_alias Parser.c_qty Parser.c_note option_map].
@@ -615,29 +1026,41 @@ Section CompPrint.
         - destruct (cs_note c); [|reflexivity]. apply andb_true_iff in Wnote as [_ Wn]. discriminate. }
       destruct Hnal as [Hna Hnn].
       assert (HNT : NT = []) by (unfold NT, print_cnote; rewrite Hnn; reflexivity).
-      rewrite HNT in *. cbn [app rev] in *.
-      destruct (timer_assemble cfg M (NM ++ BD ++ KT) al dn ev bd (rev BD ++ rev NM ++ M :: dn) KT tn qres sepo) as (sp & Hi); auto.
-      + rewrite Hbn. unfold NM, print_cname. rewrite Hna, app_nil_r.
+      assert (Hms : cs_mods c = []).
+      { destruct (cs_mods c) as [|m r]; [reflexivity|]. cbn [forallb] in Wmi. apply andb_true_iff in Wmi as [Hm _].
+        destruct m as [k0|i]; apply andb_true_iff in Hm as [_ Hm]; [destruct k0|]; discriminate. }
+      assert (HMD : MD = []) by (unfold MD; rewrite Hms; reflexivity).
+      rewrite HNT, HMD in *. cbn [app rev] in *.
+      assert (HkM : kind M = KTilde) by reflexivity.
+      assert (Hal : has cfg X_COMPONENT_ALIAS = false \/ position (fun k0 => tk_eqb k0 KOr) (bd_name bd) = None).
+      { rewrite Hbn. unfold NM, print_cname. rewrite Hna, app_nil_r.
         rewrite Hna in Hal2. apply orb_true_iff in Hal2 as [H|H]; [left; apply negb_true; exact H|right].
-        apply position_none. apply no_kind_place. exact H.
-      + unfold peek_of. cbn [b_rest St]. rewrite Hnn in Hnote1. exact Hnote1.
-      + rewrite Hcur. specialize (Hpa (St al dn [] ev)). rewrite Hbn in *. unfold NM, print_cname in *.
-        rewrite Hna, app_nil_r in *. 
-        assert (E : parse_alias cfg (place o1 (cs_name c)) o1 = bind (textM cfg o1 (place o1 (cs_name c))) (fun nt0 => ret (nt0, None))).
-        { apply orb_true_iff in Hal2 as [H|H]; [apply alias_off; apply negb_true; exact H|].
-          apply alias_untriggered, position_none, no_kind_place. exact H. }
+        apply position_none. apply no_kind_place. exact H. }
+      assert (Hnp : tk_eqb (peek_of (St al (rev BD ++ rev NM ++ M :: dn) KT ev)) KOpenParen = false).
+      { unfold peek_of. cbn [b_rest St]. rewrite Hnn in Hnote1. exact Hnote1. }
+      assert (Hname : text_of cfg (current_offset_of (St al (M :: dn) (NM ++ BD ++ KT) ev)) (bd_name bd) = Done tn).
+      { rewrite Hcur. specialize (Hpa (St al dn [] ev)).
+        assert (E : parse_alias cfg (bd_name bd) o1 = bind (textM cfg o1 (bd_name bd)) (fun nt0 => ret (nt0, None))).
+        { destruct Hal as [H|H]; [apply alias_off; exact H|apply alias_untriggered; exact H]. }
         rewrite E in Hpa. unfold bind, textM, lift, ret in Hpa.
-        destruct (text_of cfg o1 (place o1 (cs_name c))); [|discriminate]. inversion Hpa; subst. reflexivity.
-      + destruct qres as [q'|].
-        * destruct (cs_body c) as [q tp | |]; try discriminate.
+        destruct (text_of cfg o1 (bd_name bd)); [|discriminate]. inversion Hpa; subst. reflexivity. }
+      assert (Hun : match qres with
+                    | Some q => q_unit q <> None
+                    | None => has cfg X_TIMER_REQUIRES_TIME = false /\ is_text_empty tn = false
+                    end).
+      { destruct qres as [q'|].
+        - destruct (cs_body c) as [q tp | |]; try discriminate.
           apply andb_true_iff in Wbody as [_ Wu]. destruct (qs_unit q) eqn:Eu; [|discriminate].
           cbn [option_map denote_cqty] in Hqd.
-        pose proof (f_equal (fun o => match o with Some x => x | None => qproj q' end) Hqd) as Hq'; cbv beta iota in Hq'. apply (qproj_unit q' q Hq'). rewrite Eu. discriminate.
-        * rewrite Hten. destruct (cs_body c) as [q tp | inner |]; [discriminate| |].
-          -- apply andb_true_iff in Wbody as [_ Wt]. split; apply negb_true; assumption.
-          -- apply andb_true_iff in Wbody as [_ Wt]. split; apply negb_true; assumption.
-      + eexists. split; [apply with_recover_some; exact Hi|].
-        cbn [ev_proj t_name t_qty option_map]. rewrite Hten, Hqd.
-        destruct (str_blank (toks_text (cs_name c))); cbn [option_map]; rewrite ?Htn; reflexivity.
+          pose proof (f_equal (fun o => match o with Some x => x | None => qproj q' end) Hqd) as Hq'; cbv beta iota in Hq'.
+          apply (qproj_unit q' q Hq'). rewrite Eu. discriminate.
+        - rewrite Hten. destruct (cs_body c) as [q tp | inner |]; [discriminate| |].
+          + apply andb_true_iff in Wbody as [_ Wt]. split; apply negb_true; assumption.
+          + apply andb_true_iff in Wbody as [_ Wt]. split; apply negb_true; assumption. }
+      destruct (timer_assemble cfg M (NM ++ BD ++ KT) al dn ev bd (rev BD ++ rev NM ++ M :: dn) KT tn qres sepo
+                  HkM Hmods Hbody Hal Hnp Hname Hqp Hun) as (sp & Hi).
+      eexists. split; [apply with_recover_some; exact Hi|].
+      cbn [ev_proj t_name t_qty option_map]. rewrite Hten, Hqd.
+      destruct (str_blank (toks_text (cs_name c))); cbn [option_map]; rewrite ?Htn; reflexivity.
   Qed.
 End CompPrint.
